@@ -14,7 +14,7 @@ RULE = ("C11 monitor at every leg: each relevant non-active unit recorded once, 
 def run(ctx):
     from ..core import Result
     res = Result()
-    st = _enva.run_monitors(ctx, res, MON, FILTER)
+    st = _enva.run_monitors(ctx, res, MON, FILTER, quiet=True)
     res.coverage = _enva.coverage(st, MON, RULE)
     res.assumptions = list(_enva.ASSUMPTIONS)
     return res
